@@ -6,22 +6,20 @@ open Mhd.ReplyStr Mhd.Resp Mhd.Reply Driver
 
 namespace G
 open Mhd.Gen.Reply
-def bit (n : Nat) (mask : Int) : Bool := mask > 0 && (n / mask.toNat) % 2 == 1
+/-- canonical numbering of the line protocol (independent of the C enum values):
+    response flags strict=1 server=2 insanity=4 keepalive-hdr=8 head-only=16; flags_auto conn=1 close=2 te=4 cl=8 date=16 -/
+def bit (n k : Nat) : Bool := (n / k) % 2 == 1
 
 def rflagsOfNat (n : Nat) : RFlags :=
-  { http10Strict := bit n rfHttp10Strict, http10Server := bit n rfHttp10Server, insanity := bit n rfInsanity,
-    sendKeepAlive := bit n rfSendKeepAlive, headOnly := bit n rfHeadOnly }
+  { http10Strict := bit n 1, http10Server := bit n 2, insanity := bit n 4, sendKeepAlive := bit n 8, headOnly := bit n 16 }
 def natOfRFlags (f : RFlags) : Nat :=
-  (if f.http10Strict then rfHttp10Strict.toNat else 0) + (if f.http10Server then rfHttp10Server.toNat else 0) +
-  (if f.insanity then rfInsanity.toNat else 0) + (if f.sendKeepAlive then rfSendKeepAlive.toNat else 0) +
-  (if f.headOnly then rfHeadOnly.toNat else 0)
+  (if f.http10Strict then 1 else 0) + (if f.http10Server then 2 else 0) + (if f.insanity then 4 else 0) +
+  (if f.sendKeepAlive then 8 else 0) + (if f.headOnly then 16 else 0)
 def autoOfNat (n : Nat) : AutoFlags :=
-  { connHdr := bit n rafConnHdr, connClose := bit n rafConnClose, transEnc := bit n rafTransEnc,
-    contentLength := bit n rafContentLength, date := bit n rafDate }
+  { connHdr := bit n 1, connClose := bit n 2, transEnc := bit n 4, contentLength := bit n 8, date := bit n 16 }
 def natOfAuto (f : AutoFlags) : Nat :=
-  (if f.connHdr then rafConnHdr.toNat else 0) + (if f.connClose then rafConnClose.toNat else 0) +
-  (if f.transEnc then rafTransEnc.toNat else 0) + (if f.contentLength then rafContentLength.toNat else 0) +
-  (if f.date then rafDate.toNat else 0)
+  (if f.connHdr then 1 else 0) + (if f.connClose then 2 else 0) + (if f.transEnc then 4 else 0) +
+  (if f.contentLength then 8 else 0) + (if f.date then 16 else 0)
 
 def kaOfInt (i : Int) : Option KA :=
   if i == kaMustClose then some .mustClose else if i == kaUnknown then some .unknown
@@ -231,6 +229,24 @@ def stepLine (s : St) (ws : List String) : St × List String :=
       | _, _, _, _ => (s, ["bad-op"])
   | ["foot?", i, bs] => match i.toNat?.bind s.get, bs.toNat? with
       | some sl, some bs => (s, [match buildFooter sl.r bs with | some b => "out=" ++ hexOfBytes b | none => "NO"])
+      | _, _ => (s, ["bad-op"])
+  -- ---------------------------------------------------------------- token helpers
+  | ["rt", sv, tv] => match bytesOfHex sv, bytesOfHex tv with
+      | some sb, some tb =>
+        if tb.isEmpty then (s, ["bad-op"]) else
+        (match removeTokenCaseless sb tb (sb.length + sb.length / 2 + 1) with
+         | some res => (s, [s!"r={if res.removed then 1 else 0} out={hexOfBytes res.out}"])
+         | none => (s, ["toosmall"]))
+      | _, _ => (s, ["bad-op"])
+  | ["rts", sv, tv] => match bytesOfHex sv, bytesOfHex tv with
+      | some sb, some tb =>
+        (match removeTokensCaseless sb tb with
+         | some res => (s, [s!"r={if res.removed then 1 else 0} out={hexOfBytes res.out}"])
+         | none => (s, ["fault"]))
+      | _, _ => (s, ["bad-op"])
+  | ["ht", sv, tv] => match bytesOfHex sv, bytesOfHex tv with
+      | some sb, some tb =>
+        if tb.isEmpty || sb.contains 0 then (s, ["bad-op"]) else (s, [if hasTokenCaseless sb tb then "1" else "0"])
       | _, _ => (s, ["bad-op"])
   -- ---------------------------------------------------------------- complete exchanges
   | ["x", m, ver, conn, expect, up, early, specs] =>
